@@ -28,7 +28,7 @@ namespace PyStr
 /-- exception classes of the modelled code (`IOError` = `OSError`); `unmodelled` is NOT a Python
     exception: it marks inputs outside the modelled grammar (reported as skipped by the harness). -/
 inductive PyErr
-  | ioError | valueError | indexError | typeError | stopIteration | unmodelled
+  | ioError | valueError | indexError | typeError | stopIteration | attributeError | unmodelled
 deriving DecidableEq, Repr, Inhabited
 
 def PyErr.name : PyErr → String
@@ -37,6 +37,7 @@ def PyErr.name : PyErr → String
   | .indexError => "IndexError"
   | .typeError => "TypeError"
   | .stopIteration => "StopIteration"
+  | .attributeError => "AttributeError"
   | .unmodelled => "unmodelled"
 
 def nl : Nat := 10
@@ -226,6 +227,48 @@ def pyFloat (s : List Nat) : Except PyErr PyNum :=
   if hasUnmodelled s then .error .unmodelled else
   let p := splitSign (stripC s)
   pyFloatBody p.1 p.2
+
+/-! ### `float()`: the nearest double of the exact decimal
+
+The value `float(s)` returns is the IEEE double nearest to the exact decimal (ties to even; CPython's
+`PyOS_string_to_double` → `_Py_dg_strtod` is correctly rounded), an infinity on overflow, a signed zero on
+underflow. Needed where a parsed value is FORMATTED again (`writeline(str)` as the first line of a file:
+`parse_atomline` then `parse_atomlist`). -/
+
+/-- `num ≥ den · 2^k` (`k` any integer), evaluated in `Nat` -/
+def geMulPow2 (num den : Nat) (k : Int) : Bool := den * 2 ^ k.toNat ≤ num * 2 ^ (-k).toNat
+
+/-- `⌊log₂ (num / den)⌋` for `num, den > 0`: with `a = ⌊log₂ num⌋`, `b = ⌊log₂ den⌋` the quotient lies
+    strictly between `2^(a−b−1)` and `2^(a−b+1)` -/
+def ilog2Ratio (num den : Nat) : Int :=
+  let k0 : Int := (Nat.log2 num : Int) - (Nat.log2 den : Int)
+  if geMulPow2 num den k0 then k0 else k0 - 1
+
+/-- the double nearest to `± num / den` (`den > 0`), ties to even; `none` = overflow (±inf).
+    Binades: normal numbers have 53 significant bits (`2^52 ≤ m < 2^53` at exponent `k − 52`), below
+    `2^(−1022)` the exponent is clamped to `−1074` (subnormals). The mantissa may come out as `2^53`
+    (carry): the value `m · 2^e` is still the right double. -/
+def nearestDouble (neg : Bool) (num den : Nat) : Option Dy :=
+  if num = 0 then some ⟨neg, 0, 0⟩ else
+  let k := ilog2Ratio num den
+  let e : Int := if k - 52 < -1074 then -1074 else k - 52
+  let m := roundHalfEvenDiv (num * 2 ^ (-e).toNat) (den * 2 ^ e.toNat)
+  if 0 ≤ e ∧ 2 ^ 1024 ≤ m * 2 ^ e.toNat then none else some ⟨neg, m, e⟩
+
+/-- the `float` object for a parsed literal, as a finite double; `none` for `inf` / `nan` (incl. overflow).
+    The two guards only avoid astronomically large powers of ten: with `n` digits in the mantissa the value is
+    `≥ 10^(e10+n−1)` and `< 10^(e10+n)`; above `10^310` every value overflows, below `10^(−330)` every value
+    rounds to zero (`2^(−1075) > 10^(−324)`). -/
+def PyNum.toDy : PyNum → Option Dy
+  | .fin neg man e10 =>
+    if man = 0 then some ⟨neg, 0, 0⟩ else
+    let n : Int := ((natDigits man).length : Int)
+    if e10 + n > 311 then none
+    else if e10 + n < -330 then some ⟨neg, 0, 0⟩
+    else if 0 ≤ e10 then nearestDouble neg (man * 10 ^ e10.toNat) 1
+    else nearestDouble neg man (10 ^ (-e10).toNat)
+  | .inf _ => none
+  | .nan _ => none
 
 /-! ### text file as a byte list -/
 
